@@ -14,6 +14,7 @@ differential or classificatory: none needs to know what the bytes should be.
 from __future__ import annotations
 
 import random
+import re
 from typing import Any, Iterator
 
 Node = dict[str, Any]
@@ -43,6 +44,9 @@ ALL_FEATURES = (
     "overlap",
     "abs_paths",
     "zero_block",
+    "lexvar",
+    "nested_include",
+    "local_table",
 )
 # "big_incbin" (a >64 KiB contiguous block) is opt-in: callers add it explicitly with a low probability.
 
@@ -447,6 +451,30 @@ class Gen:
 
     # -- single statements
     def simple_instr(self) -> Node:
+        """One instruction, with seeded lexical variation that must not change its meaning:
+        upper-case mnemonic / size suffix / index register (never inside parentheses), extra blanks,
+        tabs, a trailing ';' comment."""
+        n = self._simple_instr_base()
+        if "lexvar" not in self.feats:
+            return n
+        rng = self.rng
+        t = n["t"]
+        if "\n" in t:
+            return n
+        r = rng.random()
+        if r < 0.15:
+            head, sep, rest = t.partition(" ")
+            t = head.upper() + sep + rest  # mnemonic and size suffix
+        elif r < 0.25 and "(" not in t and "[" not in t and re.search(r",[xys]$", t):
+            t = t[:-1] + t[-1].upper()
+        elif r < 0.35:
+            t = t.replace(" ", "  ", 1)
+        if rng.random() < 0.15 and "'" not in t:
+            t = t + rng.choice([" ; note", "\t; x", " ;", " ; lda #1"])
+        n["t"] = t
+        return n
+
+    def _simple_instr_base(self) -> Node:
         r = self.rng.random()
         rng = self.rng
         if r < 0.25:
@@ -503,6 +531,9 @@ class Gen:
                 k = rng.randrange(0, len(text) + 1)
                 text = text[:k] + f"[0x{rng.randrange(256):02x}]" + text[k:]
             return stmt(f".text '{text}'")
+        if "lexvar" in self.feats and rng.random() < 0.15:
+            k = rng.randrange(0, len(text) + 1)
+            text = text[:k] + "\\'" + text[k:]  # an escaped quote inside the string
         return stmt(f".ascii '{text}'")
 
     def comment(self) -> Node:
@@ -656,7 +687,16 @@ class Gen:
             form = rng.choice([".db {p}", ".dw {p}", ".dl {p}", "lda.w #{p}", "lda.b #{p}", "lda.w {p}", "sta.l {p}", ".dw {p} + 1", "ldx.w #{p} & 0xff"])
             return [stmt(form.format(p=p))]
         if kind == "block":
-            return [block("{", self.body(depth + 1, in_lm, params), "block")]
+            inner = self.body(depth + 1, in_lm, params)
+            if "local_table" in f and self.has_table and not in_lm and rng.random() < 0.4:
+                # a table that is local to this block: other codes for the same characters
+                rel = f"{self.prefix}ltbl{self.uid()}.tbl"
+                chars = self.table_chars
+                self.prog.files[rel] = ("\n".join(f"{0xC0 + i:02X}={ch}" for i, ch in enumerate(chars)) + "\n").encode("utf-8")
+                self.prog.roles[rel] = "table"
+                text = "".join(rng.choice(chars) for _ in range(rng.randrange(1, 8)))
+                inner = [stmt(f".table '{self.ref(rel)}'", "table"), stmt(f".text '{text}'")] + inner + [stmt(f".text '{text}'")]
+            return [block("{", inner, "block")]
         if kind == "if":
             cond, taken = self.condition()
             n = block(f".if {cond} {{", self.body(depth + 1, in_lm, params, new_scope=False), "if", assembled=taken)
@@ -823,6 +863,11 @@ class Gen:
                     for n in nodes:
                         self._note_assign(n)
                     inc_nodes += nodes
+                if "nested_include" in f and rng.random() < 0.6:
+                    # an included file that includes another one
+                    rel2 = f"{self.prefix}inc{self.uid()}.s"
+                    prog.inc_roots[rel2] = [self.plain_instr() for _ in range(rng.randrange(1, 3))] + [stmt(f".db {self.lit(8)}, {self.lit(8)}")]
+                    inc_nodes.insert(rng.choice([0, len(inc_nodes)]), stmt(f".include '{self.ref(rel2)}'", "include"))
                 prog.inc_roots[rel] = inc_nodes
                 root.append(stmt(f".include '{self.ref(rel)}'", "include"))
             if "reloc" in f and not use_map and rng.random() < 0.4:
